@@ -242,6 +242,7 @@ func (c *Client) registerSubscription_NeedsSubMuxLock(sub *Subscription) error {
 	}
 
 	if _, ok := c.subs[sub.SubscriptionID]; ok {
+		simhook.Yield("client.registerSubscription.alreadyRegistered")
 		return errors.Errorf("SubscriptionID %d already registered", sub.SubscriptionID)
 	}
 
